@@ -96,6 +96,7 @@ fn scenario(ctx: &Ctx, out: &mut Outcome, rng: &mut Rng, idx: u64) {
     let ncycles = 2 + rng.usize(3);
     let nqueries = rng.usize(3);
     let restart = rng.chance(1, 2);
+    let admin_delete = rng.chance(1, 2);
     let jump_permille = *rng.pick(&[10u64, 40, 100]);
     let skew_ns = BoundedClock::default().max_skew().as_nanos() as i64;
     let now0 = clock::SIM_EPOCH_NS;
@@ -137,7 +138,7 @@ fn scenario(ctx: &Ctx, out: &mut Outcome, rng: &mut Rng, idx: u64) {
         sharding_enabled: false,
     };
     let plan_json = json!({"backend": if local_backend {"local"} else {"object-store"}, "retention_days": retention_days, "grace_s": grace_s,
-        "chunks": plans.iter().map(|p| format!("{} rows={}", p.0, p.1.len())).collect::<Vec<_>>(), "cycles": ncycles, "query_actors": nqueries, "restart": restart});
+        "chunks": plans.iter().map(|p| format!("{} rows={}", p.0, p.1.len())).collect::<Vec<_>>(), "cycles": ncycles, "query_actors": nqueries, "restart": restart, "operator_removes_a_chunk_before_restart_loop": admin_delete});
     let plans2 = plans.clone();
     let cfg2 = cfg.clone();
 
@@ -198,7 +199,9 @@ fn scenario(ctx: &Ctx, out: &mut Outcome, rng: &mut Rng, idx: u64) {
         let start = 0usize;
         // gates: everything except catalog-call wrappers on the object-store backend
         if !local_backend {
-            ctl.set_gate_filter(Some(Arc::new(|p: &crate::sim::ParkedInfo| !p.op.starts_with("META:"))));
+            ctl.set_gate_filter(Some(Arc::new(|p: &crate::sim::ParkedInfo| !p.op.starts_with("META:") && !p.actor.starts_with("admin"))));
+        } else {
+            ctl.set_gate_filter(Some(Arc::new(|p: &crate::sim::ParkedInfo| !p.actor.starts_with("admin"))));
         }
         ctl.set_gating(true);
         let monitor = Arc::new(ShardMonitor::new(HotShardConfig::default()));
@@ -269,6 +272,27 @@ fn scenario(ctx: &Ctx, out: &mut Outcome, rng: &mut Rng, idx: u64) {
                 ctl.mark("clock", "CLOCK", &format!("+{}s (before restart)", grace_s + 5), "");
                 restart_clock_after_grace = true;
                 let c2 = Compactor::new(cfg2.clone(), ctl.store("comp2"), mk_meta(&ctl, "comp2"), storage_config(), monitor.clone()).with_pin_registry(registry.clone());
+                // an operator removes one live chunk by hand on the new instance before its service loop
+                // starts (catalog removal, then the public schedule_deletion): a FRESH pending deletion sits
+                // in memory when run() merges the persisted, older ones
+                if admin_delete {
+                    // (the "admin" actor is exempt from the gate: this runs on the scheduler task itself;
+                    // its requests are still logged, so the catalog history sees the removal)
+                    let admin = mk_meta(&ctl, "admin");
+                    if let Ok(l) = admin.list_chunks().await {
+                        if let Some(c) = l.first() {
+                            if admin.delete_chunk(&c.chunk_path).await.is_ok() {
+                                c2.schedule_deletion(&c.chunk_path);
+                                ctl.mark("admin", "ADMIN_DELETE", &c.chunk_path, "");
+                                if local_backend {
+                                    // the in-memory catalog has no versions: record the removal now
+                                    let s = snap(local.clone()).await;
+                                    local_history.push((ctl.events_len() as u64, clock::wall_ns(), s.into_iter().map(|x| x.0).collect()));
+                                }
+                            }
+                        }
+                    }
+                }
                 let tok = c2.shutdown_token();
                 let ctl3 = ctl.clone();
                 let h = sim::spawn_actor("comp2", async move {
